@@ -202,7 +202,7 @@ def run(ctx):
                             if o[0] == "error" and o[2]:
                                 want_ext += 1
                         got_ext = sum(1 for e in resp.get("errors", []) if e.get("extensions"))
-                        if want_ext != got_ext:
+                        if want_ext != got_ext and not ref[3].type_failures:
                             ctx.violation("extensions:lost-or-invented", witness, "expected %d entries with extensions, response has %d" % (want_ext, got_ext))
                         else:
                             ctx.count("extensions_passed_through", got_ext)
